@@ -225,9 +225,30 @@ func runC16(rc *RunCtx) {
 		}
 	}
 	last := maxShort + 3 + int64(rc.Intn(6))
+	// free-name collision: somebody pays for the very name that MsgInit will hand out at height hInit; an account
+	// that has not used Init yet sends MsgInit exactly then (a registration too: the live name must stay with its owner)
+	hInit := int64(-1)
+	if rc.Chance(0.25) {
+		hInit = 2 + int64(rc.Intn(int(last)-1))
+	}
 	for h := int64(1); h <= last; h++ {
 		if h > 1 {
 			if !w.Block() {
+				return
+			}
+		}
+		if hInit > 0 && h == hInit-1 {
+			if !register(rc.Intn(nacc), rnstypes.MakeName(int(hInit), hInit)+".jkl", 1) {
+				return
+			}
+		}
+		if h == hInit {
+			free := rnstypes.MakeName(int(hInit), hInit) + ".jkl"
+			i := rc.Intn(nacc)
+			if P := w.st.Names[free]; P != nil {
+				i = other(idx(P.Owner))
+			}
+			if _, ok := w.Do(i, &rnstypes.MsgInit{Creator: c.Accs[i].Bech}); !ok {
 				return
 			}
 		}
